@@ -276,6 +276,11 @@ func initContainer(c containerConfig) error {
 }
 
 func initFileSystem(c containerConfig) error {
+	// cut the new mount namespace off from mount events of the host (the in-child mount sequence of forkexec does
+	// the same): a bind of a shared host mount would otherwise keep receiving what the host mounts below it later
+	if err := syscall.Mount("", "/", "", syscall.MS_REC|syscall.MS_PRIVATE, ""); err != nil {
+		return fmt.Errorf("init_fs: make / private: %w", err)
+	}
 	// mount tmpfs as root
 	const tmpfs = "tmpfs"
 	if err := syscall.Mount(tmpfs, c.ContainerRoot, tmpfs, 0, ""); err != nil {
